@@ -59,6 +59,58 @@ Example C17_ff_example :
   ff_out (ff_run (Sh 3 true) 2 (Some 0) 0 [Ein 13; Eo; Eo]) = -3.
 Proof. vm_compute. repeat split. Qed.
 
+(* o of another shape than i: the comb assignment o.eq(flops[-1]) converts the value *)
+Theorem C17_ff_sync_latency_o_shape osh sh stages init i0 evs : (1 <= stages)%nat ->
+  let n := count_oedges evs in
+  ff_out_as osh (ff_run sh stages init i0 evs) =
+  norm osh (if (n <? stages)%nat then norm sh (ff_ctor_init init)
+            else nth (n - stages) (sampled sh (norm sh i0) evs) 0).
+Proof. intros Hs n. unfold ff_out_as. f_equal. exact (ff_sync_latency sh stages init i0 evs Hs). Qed.
+Print Assumptions C17_ff_sync_latency_o_shape.
+
+(* --- FFSynchronizer and the reset of the output domain (Rrst b = the domain's rst is driven to b) ---
+   default flops (reset_less=True) in a sync-reset domain: the reset has no effect at all, so the
+   latency theorems hold whatever the reset does *)
+Theorem C17_ff_reset_less_ignores_reset sh stages init i0 evs :
+  fr_ff (ffr_run sh stages init false true i0 evs) = ff_run sh stages init i0 (erase_rst evs).
+Proof. exact (ffr_reset_less_ignores_reset sh stages init i0 evs). Qed.
+Print Assumptions C17_ff_reset_less_ignores_reset.
+
+(* rst never asserted: sync or async reset domain, reset_less or not -- the reset-free model *)
+Theorem C17_ff_no_reset sh stages init async rl i0 evs : rst_never evs = true ->
+  fr_ff (ffr_run sh stages init async rl i0 evs) = ff_run sh stages init i0 (erase_rst evs).
+Proof. exact (ffr_no_reset sh stages init async rl i0 evs). Qed.
+Print Assumptions C17_ff_no_reset.
+
+(* reset_less=False: an output edge with rst high is a power-up: init for the following stages - 1
+   edges, then the input as sampled since the reset (the input's value at the reset first) *)
+Theorem C17_ff_reset_is_power_up sh stages init async i0 evs tail : (1 <= stages)%nat ->
+  let s := ffr_run sh stages init async false i0 evs in
+  fr_rst s = true ->
+  ff_out (fr_ff (ffr_run sh stages init async false i0 (evs ++ Rev Eo :: Rrst false :: map Rev tail))) =
+  if (count_oedges tail <? stages)%nat then norm sh (ff_ctor_init init)
+  else nth (count_oedges tail - stages) (sampled sh (ff_in (fr_ff s)) tail) 0.
+Proof. exact (ffr_reset_is_power_up sh stages init async i0 evs tail). Qed.
+Print Assumptions C17_ff_reset_is_power_up.
+
+Example C17_ff_reset_example :
+  let evs := [Rev (Ein 6); Rev Eo; Rev Eo; Rrst true] in
+  fr_rst (ffr_run (Sh 4 false) 2 (Some 3) false false 9 evs) = true /\
+  ff_out (fr_ff (ffr_run (Sh 4 false) 2 (Some 3) false false 9 evs)) = 6 /\
+  map (fun k => ff_out (fr_ff (ffr_run (Sh 4 false) 2 (Some 3) false false 9
+                                (evs ++ Rev Eo :: Rrst false :: map Rev (repeat Eo k))))) [0; 1; 2]%nat = [3; 3; 6].
+Proof. vm_compute. repeat split. Qed.
+
+(* the latency clause is FALSE for default (reset_less) flops in an async-reset output domain: the
+   simulator runs the domain's process on every rise of rst, so two rises move the input to the
+   output with no output-clock edge at all (finding F7-async-reset-runs-sync-process) *)
+Theorem C17_ff_async_reset_rise_refuted :
+  exists evs, count_oedges (erase_rst evs) = O /\
+              ff_out (fr_ff (ffr_run (Sh 4 false) 2 (Some 3) true true 9 evs)) = 9 /\
+              ff_out (ff_run (Sh 4 false) 2 (Some 3) 9 (erase_rst evs)) = 3.
+Proof. exact ffr_async_reset_rise_refuted. Qed.
+Print Assumptions C17_ff_async_reset_rise_refuted.
+
 (* --- AsyncFFSynchronizer / ResetSynchronizer ---
    af_rst pos i = the input is asserted (i for async_edge="pos", ~i for "neg"). *)
 (* asserted input => output 1 at once: no clock edge is needed, and it stays 1 while asserted *)
